@@ -102,7 +102,7 @@ CLAIMED = {
     ),
     "C07": (
         "Coq model of the send FSM on a mini event loop + invariant by induction over arbitrary runs (a caller is only ever handed its own command's echo or reply, while no internal assertion trips) + step lemmas (deadline armed at the call, the deadline wakes the caller, a wake-up always answers) + trace-equality correspondence with the real PortProtocol on a virtual-time loop + schedule oracle",
-        "9 theorems in coq/props/C07.v about coq/model/M_Qos.v (ProtocolContext.set_state/_send_cmd/_check_buffer_for_cmd/send_cmd, the "
+        "11 theorems in coq/props/C07.v about coq/model/M_Qos.v (EVERY CALLER ANSWERED, at run level and unconditionally -- coq/proof/P_QosCallers.v: in EVERY run, tripped assertions included, a caller still to be answered has its wait_for timer or its wake-up pending (invariant by induction through every callback and batch boundary), so a run at rest -- nothing ready, no timer armed -- holds no unanswered caller: C07_at_rest_all_answered, premises met: C07_all_answered_nonvacuous; ProtocolContext.set_state/_send_cmd/_check_buffer_for_cmd/send_cmd, the "
         "expiry task, the writer task, every 'Coding error' assert as an explicit Crash, on a loop model with _run_once batching and "
         "tie policies): every call is answered at once or arms a wake-up at now + min(timeout, 20 s) [the cap re-read from the source]; "
         "the wake-up of a waiting/timed-out caller always produces an answer; C07_result_belongs: in EVERY run (any events, tie policy, transport "
@@ -111,7 +111,7 @@ CLAIMED = {
         "being matched is the frame of the command whose future will be resolved, the kept echo is that frame's' through every callback, plus "
         "monotonicity of the trace on every path incl. crashes; non-vacuity witness; the 0418 special case is in the model (packets carry the class of a null fault-log entry, RQ|0418 commands the class of their reply header): "
         "while a reply is awaited a packet with neither the awaited header nor the ADDRESSED controller's null entry changes nothing (C07_foreign_packet_ignored), that controller's null entry answers (C07_own_null_entry_answers). PARTIAL: after a tripped assertion ownership is only "
-        "checked by the oracle; 'within the deadline' is per-step (armed / wakes / answers), not a run-level liveness theorem. Tie: ~100 (thorough 400+) generated schedules + 14 singled-out ones "
+        "checked by the oracle; 'within the deadline' is per-step (armed / wakes / answers); the run-level theorem says 'answered once the run is at rest', not 'by the deadline'. Tie: ~100 (thorough 400+) generated schedules + 14 singled-out ones "
         "run on the real PortProtocol and on the model; traces (write times, answers with outcome class and packet, loop exceptions, "
         "final state, queue) must be EQUAL. Oracle: one answer per call, answered by the deadline, result is own echo/reply, error class "
         "inside the ProtocolError family; every other scenario's callers go through the gateway-level entry (Engine.async_send_cmd) around the same protocol; a fifth of the scenarios cancel one caller from outside.",
